@@ -453,7 +453,7 @@ def main():
         shutil.rmtree(d, ignore_errors=True)
     chk.cov['rule'] = ('every behaviour of the bounded exhaustive run that signs something (sampled in the quick tier), simulated '
                       'longer behaviours (3 entities, 5 algorithms), each replayed sequentially and with one thread per entity; '
-                      'all 3 000 query-mutation scenarios (incl. another entity's expired certificate, and the signer's own crypto object running the check); behaviours include key roll-over in place (entities built by the library from key files); random threaded executions validated by TLC')
+                      'all 3 000 query-mutation scenarios (incl. the expired certificate of another entity, and the crypto object of the signer running the check); behaviours include key roll-over in place (entities built by the library from key files); random threaded executions validated by TLC')
     chk.assumptions = ['the key that really signed a URL is determined by verifying the transmitted octet string with every '
                        'certificate of the pool using `cryptography` directly (independent of the code under test)',
                        'steps are interleaved at the granularity of the API calls (obtain / sign / verify)']
